@@ -50,7 +50,7 @@ theorem trash_value_eq (n : Nat) (c : F) (exprs : List (List F)) (hl : ∀ e ∈
     (i : Nat) (hi : i < n) : (trashValues n c exprs).getD i 0 = compressRow c exprs i := by
   unfold trashValues compressRow
   rw [trash_fold_getD n c i hi exprs _ (by simp) hl]
-  simp [List.getD_replicate, hi]
+  simp [List.getD_eq_getElem?_getD, hi]
 
 private theorem mul_fold (c q : F) (i : Nat) : ∀ (exprs : List (List F)) (a : F),
     q * exprs.foldl (fun a e => a * c + e.getD i 0) a =
